@@ -77,7 +77,7 @@ THCtxDone == Is("HCtxDone") /\ Timed(HCtxDone(E.h))
 TURet == Is("URet") /\ Timed(URet(E.c, E.res, E.code, E.msg, E.n, E.pay))
 TSOpenRet == Is("SOpenRet") /\ Timed(SOpenRet(E.c, E.res))
 TSSend == Is("SSend") /\ Timed(SSend(E.c, E.pay))
-TSSendRet == Is("SSendRet") /\ Timed(SSendRet(E.c, IF E.res = "ok" THEN "ok" ELSE "err"))
+TSSendRet == Is("SSendRet") /\ Timed(SSendRet(E.c, IF E.res = "ok" THEN "ok" ELSE "err", E.x))
 TSClose == Is("SClose") /\ Timed(SClose(E.c))
 TSCloseRet == Is("SCloseRet") /\ Timed(SCloseRet(E.c, E.res))
 TSRecv == Is("SRecv") /\ E.c \in DOMAIN calls /\ now' = E.t /\ Stutter
